@@ -7,7 +7,9 @@ import (
 	"bytes"
 	"errors"
 	"io/ioutil"
+	"net"
 	"net/http"
+	"net/url"
 
 	"github.com/google/martian/v3/zzverif/vf"
 )
@@ -30,6 +32,10 @@ func VerifC03OriginFaults() {
 	full := resSpec{status: 200, hval: "x", framing: vf.Choice("origin-framing", 2), body: vf.Bytes("origin-body", 3)}.wire()
 	good := resSpec{status: 200, hval: "y", body: []byte("second")}.wire()
 	fault := vf.Choice("fault", 3)
+	refusal := 0
+	if fault == 0 {
+		refusal = vf.Choice("refusal-shape", 4)
+	}
 	var k int
 	o := &origin{}
 	o.answer = func(i int, req *http.Request) (*http.Response, error) {
@@ -38,6 +44,15 @@ func VerifC03OriginFaults() {
 		}
 		switch fault {
 		case 0:
+			// the shapes of error a transport reports for a failed dial
+			switch refusal {
+			case 1: // refused by a resolved address
+				return nil, &net.OpError{Op: "dial", Net: "tcp", Addr: &net.TCPAddr{IP: net.IPv4(10, 0, 0, 9), Port: 80}, Err: errors.New("connect: connection refused")}
+			case 2: // failed before any address was known (unresolvable host, invalid port)
+				return nil, &net.OpError{Op: "dial", Net: "tcp", Err: &net.DNSError{Err: "no such host", Name: "example.com", IsNotFound: true}}
+			case 3: // wrapped once more, as http.Client does
+				return nil, &url.Error{Op: "Get", URL: "http://example.com/one", Err: &net.OpError{Op: "dial", Net: "tcp", Err: errors.New("unknown port")}}
+			}
 			return nil, errors.New("dial tcp: connection refused")
 		case 1:
 			return rawResponse([]byte("SSH-2.0-OpenSSH_8.9\r\n"), req)
